@@ -15,12 +15,13 @@ import (
 )
 
 type Case struct {
-	G        *cfgm.G
-	Inputs   [][]int
-	Limits   []int // per input step bound; nil = default 2000+200*len
-	OnBounds bool
-	LoxText  string // filled in
-	GoText   string // filled in
+	G           *cfgm.G
+	Inputs      [][]int
+	Limits      []int // per input step bound; nil = default 2000+200*len
+	OnBounds    bool
+	NamedSlices bool
+	LoxText     string // filled in
+	GoText      string // filled in
 }
 
 type Out struct {
@@ -61,7 +62,7 @@ func Run(cases []*Case, fast bool) ([]*Out, error) {
 	forge.FastLoader(fast)
 	for _, c := range cases {
 		c.LoxText = c.G.Lox()
-		c.GoText = pgo.UserGo(c.G, pgo.Opts{OnBounds: c.OnBounds})
+		c.GoText = pgo.UserGo(c.G, pgo.Opts{OnBounds: c.OnBounds, NamedSlices: c.NamedSlices})
 		if _, err := b.Add(map[string]string{"g.lox": c.LoxText, "user.go": c.GoText}); err != nil {
 			return nil, &HarnessError{err.Error()}
 		}
